@@ -367,6 +367,9 @@ func genAlign(c *Ctx, prop string) {
 	if prop != "C10" {
 		alignLopsided(c, prop)
 	}
+	if prop == "C08" {
+		alignHugeTable(c)
+	}
 	opens := []int{0}
 	switch prop {
 	case "C08":
@@ -1191,6 +1194,7 @@ func genC16(c *Ctx) {
 	regionsRound6(c)
 	regionsRound7(c)
 	regionsRound9(c)
+	regionsRound12(c)
 	regionsRound4(c)
 	run := func(starts, ends []int, queries []int, kind string) {
 		var idx *regions.Index
